@@ -1,5 +1,5 @@
 (* C05 — the route taken by both paths (CONNECT: martian's connect; plain: the Transport) is the spec's route. *)
-From G05 Require Import Routing Spec Check AddrProofs.
+From G05 Require Import Routing Spec Check Proofs AddrProofs.
 
 Definition presult_wf (idna : str -> str) (r : presult) : Prop :=
   match r with
@@ -17,7 +17,8 @@ Definition cfg_wf (cfg : config) : Prop :=
   (forall f t, c_upfunc cfg = Some f -> presult_wf (c_idna cfg) (f t)) /\
   (forall u, c_upstream cfg = Some u -> presult_wf (c_idna cfg) (PUrl (fst u) (snd u))) /\
   (forall s, is_ascii s = true -> c_idna cfg s = s) /\
-  (forall p t s, c_pac cfg = Some p -> p t = PacOk s -> is_ascii s = true).
+  (forall p t s, c_pac cfg = Some p -> p t = PacOk s -> is_ascii s = true) /\
+  sel_ok cfg.   (* at most one kind of upstream is configured, or the selection arms stand in the source's order *)
 
 Lemma cfg_wf_no_static cfg :
   c_upfunc cfg = None -> c_upstream cfg = None ->
@@ -25,7 +26,8 @@ Lemma cfg_wf_no_static cfg :
   (forall p t s, c_pac cfg = Some p -> p t = PacOk s -> is_ascii s = true) -> cfg_wf cfg.
 Proof.
   intros Hf Hu Hi Hp. split; [intros f t; rewrite Hf; discriminate|].
-  split; [intros u; rewrite Hu; discriminate|]. split; assumption.
+  split; [intros u; rewrite Hu; discriminate|]. split; [assumption|]. split; [assumption|].
+  right. unfold at_most_one_upstream. rewrite Hf, Hu. destruct (c_pac cfg); exact I.
 Qed.
 
 (* a static upstream as config.go validates it: supported scheme, ASCII host without brackets, numeric port *)
@@ -40,7 +42,8 @@ Proof.
   - intros u; rewrite Hu; intros E; inversion E; subst. cbn [fst snd presult_wf].
     split; [exact Hs|]. split; [apply canon_join; assumption|].
     rewrite (url_hostname_join h p H1 H2 Hv). apply Hi, Ha.
-  - split; [exact Hi|]. intros q t s; rewrite Hp; discriminate.
+  - split; [exact Hi|]. split; [intros q t s; rewrite Hp; discriminate|].
+    right. unfold at_most_one_upstream. rewrite Hf, Hu, Hp. exact I.
 Qed.
 
 (* a static upstream that passed config.go's validation (scheme in its list, ASCII host name or IP, numeric
@@ -71,7 +74,7 @@ Section Route.
   Hypothesis Htls : dialvia_http_tls_scheme = b "https".
   Hypothesis Hsocks : transport_socks_schemes = [b "socks5"; b "socks5h"].
   Hypothesis Hshared : connect_uses_proxy_func = true /\ transport_shares_proxy_func = true.
-  Hypothesis Hprec : forall cfg t, proxy_for cfg t = spec_proxy cfg t.
+  Hypothesis Hprec : forall cfg t, sel_ok cfg -> proxy_for cfg t = spec_proxy cfg t.
   Hypothesis Hpac : forall r, pac_proxy r = hop_presult (spec_pac r).
 
   (* every URL pacProxy returns has a supported scheme, a canonical host:port and an ASCII host *)
@@ -108,7 +111,7 @@ Section Route.
 
   Lemma proxy_for_wf cfg t : cfg_wf cfg -> presult_wf (c_idna cfg) (proxy_for cfg t).
   Proof.
-    intros (Hf & Hu & Hi & Hp). rewrite Hprec. unfold spec_proxy, spec_base.
+    intros (Hf & Hu & Hi & Hp & Hsel). rewrite (Hprec cfg t Hsel). unfold spec_proxy, spec_base.
     destruct (c_upfunc cfg) as [f|] eqn:Ef.
     - destruct (direct_domain cfg (hostname t)); [exact I|].
       destruct (localhost_direct cfg (hostname t)); [exact I|]. eapply Hf; reflexivity.
@@ -122,9 +125,9 @@ Section Route.
   Qed.
 
   (* the hop named by the composed proxy function is the spec's hop *)
-  Lemma hop_of_proxy_for cfg t : presult_hop (proxy_for cfg t) = spec_hop cfg t.
+  Lemma hop_of_proxy_for cfg t : sel_ok cfg -> presult_hop (proxy_for cfg t) = spec_hop cfg t.
   Proof.
-    rewrite Hprec. unfold spec_proxy, spec_hop, spec_base, spec_upstream.
+    intros Hsel. rewrite (Hprec cfg t Hsel). unfold spec_proxy, spec_hop, spec_base, spec_upstream.
     destruct (c_upfunc cfg) as [f|]; [|destruct (c_upstream cfg) as [u|]; [|destruct (c_pac cfg) as [p|]]];
       try reflexivity;
       destruct (direct_domain cfg (hostname t)); try reflexivity;
@@ -175,7 +178,7 @@ Section Route.
   Theorem route_is_spec cfg rules t : cfg_wf cfg -> route cfg rules t = spec_route cfg rules t.
   Proof.
     intros Hwf. unfold route, spec_route. destruct Hshared as [-> ->].
-    rewrite <- hop_of_proxy_for.
+    rewrite <- (hop_of_proxy_for cfg t (proj2 (proj2 (proj2 (proj2 Hwf))))).
     pose proof (route_of_presult (c_idna cfg) (c_puny cfg) rules (proxy_for cfg t) t (proxy_for_wf cfg t Hwf)) as H.
     destruct (t_kind t); exact H.
   Qed.
